@@ -137,7 +137,7 @@ def body(c):
                 if len(neg) == 2:
                     break
                 for i, (op, ob) in enumerate(zip(tr["ops"], tr["obs"])):
-                    if op["op"] == "load" and ob["res"] and ob["calls"] and tr["kind"] == "map":
+                    if op["op"] == "load" and ob["res"] and ob["calls"]:
                         bad = json.loads(json.dumps(tr))
                         bad["id"] = -1 - len(neg)
                         if len(neg) == 0:
